@@ -13,6 +13,7 @@ import itertools
 import signal
 from copy import deepcopy
 
+import numpy as np
 from common import c_bool, c_list
 
 from golem.core.dag.graph import ReconnectType
@@ -23,6 +24,9 @@ REQ = ['Graph.OpsSpec', 'Graph.OpsSpecPlain']
 PRE = 'From GolemV Require Import Graph.Heap Graph.Ops.\nLocal Open Scope nat_scope.'
 FN = 'fun c => match c with (h, g, o, ob) => check2 (h, g) o ob end'
 K = 9
+# the clean-up flag of disconnect_nodes as callers produce it: a plain bool, the result of a numpy comparison,
+# an int (every form denotes the same abstract boolean: its truth value)
+FLAG_FORMS = {'bool': bool, 'npbool': np.bool_, 'int': int}
 MODES = {'none': ('RNone', ReconnectType.none), 'single': ('RSingle', ReconnectType.single),
          'all': ('RAll', ReconnectType.all)}
 
@@ -341,7 +345,13 @@ def step(w, graph, desc):
         call = lambda: graph.connect_nodes(o[desc[1]], o[desc[2]])
     elif kind == 'disc':
         coq = '(ODisconnect %d %d %s)' % (desc[1], desc[2], c_bool(desc[3]))
-        call = lambda: graph.disconnect_nodes(o[desc[1]], o[desc[2]], clean_up_leftovers=desc[3])
+        form = desc[4] if len(desc) > 4 else 'bool'
+        flag = FLAG_FORMS[form](desc[3])
+        assert bool(flag) == bool(desc[3])
+        if len(desc) > 5 and desc[5] == 'positional':
+            call = lambda: graph.disconnect_nodes(o[desc[1]], o[desc[2]], flag)
+        else:
+            call = lambda: graph.disconnect_nodes(o[desc[1]], o[desc[2]], clean_up_leftovers=flag)
     else:
         raise ValueError(desc)
     rec = {'heap': heap, 'g': g, 'op': coq, 'kind': kind, 'desc': desc}
@@ -484,7 +494,7 @@ class Collector:
     def add(self, group, gspec, descs, rec):
         # the construction history of the containers is part of the identity of a case (aliasing is invisible
         # in the snapshot)
-        key = hashlib.sha1(repr((rec['heap'], rec['g'], rec['op'], gspec[2:], 
+        key = hashlib.sha1(repr((rec['heap'], rec['g'], rec['op'], gspec[2:], tuple(rec['desc'][4:]) if rec['kind'] == 'disc' else (),
                                  [d for d in descs if d and isinstance(d[-1], tuple) and d[-1][:1] == ('like',)])).encode()).digest()
         if key in self.seen:
             return False
@@ -573,7 +583,10 @@ def random_sequence(col, group, rng, n, length):
             if ops[0][0] == 'disc' and rng.random() < 0.7:     # prefer real edges
                 real = [o for o in ops if o[1] in heap[o[2]][2]]
                 ops = real or ops
-        descs.append(rng.choice(ops))
+        op = rng.choice(ops)
+        if op[0] == 'disc':             # the flag in one of its forms (chosen without touching the random stream)
+            op = op + (('bool', 'npbool', 'int')[(len(descs) + op[1] + op[2]) % 3],)
+        descs.append(op)
     w, graph, recs, alive = play(gspec, descs)
     col.add(group, gspec, list(descs), recs[-1])
 
@@ -610,7 +623,7 @@ def evaluate(ctx, col):
         case['step'] = {'heap': jsonable(r['heap']), 'g': list(r['g']), 'op': r['op'],
                         'observed': r.get('raise') or jsonable(r['after']), 'msg': r.get('msg', '')}
         changed = ('raise' in r) or (r['after'] != (r['heap'], r['g']))
-        ctx.count(r['group'], key=(r['heap'], r['g'], r['op'], r['replay']['graph'][2:]),
+        ctx.count(r['group'], key=(r['heap'], r['g'], r['op'], r['replay']['graph'][2:]) + tuple(r['desc'][4:] if r['kind'] == 'disc' else ()),
                   nontrivial=bool((dom or domplain) and changed),
                   op=r['kind'], in_domain=dom, in_plain_list_domain=domplain, model_declined=decl, members=len(r['g']),
                   outcome=r.get('raise', 'ok' if changed else 'no-change'))
@@ -720,6 +733,19 @@ def run(ctx):
         for pl in (dags(4) if thorough else rng.sample(dags(4), 12)):
             explore(col, 'callbacks', (pl, tuple(range(4)), (), opt), 1, 'min')
     ctx.set_exhaustive('callbacks', False)
+    # 1e. the clean-up flag of disconnect given as a numpy bool (result of a comparison) or an int, by keyword or
+    #     positionally: every edge of every DAG <= 4 nodes (same abstract operation as with the plain bool)
+    for n in range(2, 5):
+        for pl in dags(n):
+            gspec = (pl, tuple(range(n)))
+            for c in range(n):
+                for p in pl[c]:
+                    for fl in (False, True):
+                        for form in ('npbool', 'int'):
+                            for how in ('keyword', 'positional'):
+                                d = [('disc', p, c, fl, form, how)]
+                                col.add('flag-forms', gspec, d, play(gspec, d)[2][-1])
+    ctx.set_exhaustive('flag-forms', True)
     # 2. sequences of length 2 (and 3)
     if thorough:
         for n in range(1, 4):
